@@ -1524,25 +1524,28 @@ func (is *iterScanner) Next() bool {
 }
 
 func scanColumn(p []byte, col ColumnInfo, dest []interface{}) (int, error) {
-	if len(dest) == 0 {
-		// a tuple column without elements takes no scan target
-		return 0, nil
-	}
-	if dest[0] == nil {
-		return 1, nil
-	}
-
 	if col.TypeInfo.Type() == TypeTuple {
 		// this will panic, actually a bug, please report
 		tuple := col.TypeInfo.(TupleTypeInfo)
 
+		// a tuple column takes one scan target per element (none if it has no
+		// elements), also when some of them are nil
 		count := len(tuple.Elems)
+		if count > len(dest) {
+			return 0, fmt.Errorf("gocql: not enough columns to scan into: tuple column %q needs %d, have %d", col.Name, count, len(dest))
+		}
 		// here we pass in a slice of the struct which has the number number of
 		// values as elements in the tuple
 		if err := Unmarshal(col.TypeInfo, p, dest[:count]); err != nil {
 			return 0, err
 		}
 		return count, nil
+	}
+	if len(dest) == 0 {
+		return 0, fmt.Errorf("gocql: not enough columns to scan into: none left for column %q", col.Name)
+	}
+	if dest[0] == nil {
+		return 1, nil
 	} else {
 		if err := Unmarshal(col.TypeInfo, p, dest[0]); err != nil {
 			return 0, err
